@@ -90,6 +90,15 @@ CHECKS['C09'] = dict(
     design_ref='DESIGN.md 4/C09',
     note='Trusted: MIR = code; std::path builtins over a component list; virtual file system. Outside: real directory trees and cwd (exercised only in replay), symlinks.',
     technique='symbolic execution of rustc MIR (Rewriter/Walker, normalize with symbolic component kinds, import hook); call-depth bound hits are replayed natively (bounded: positions, components, projects)')
+CHECKS['C06'] = dict(
+    category='model_checking',
+    text='Files with constrained let bindings are built by the binary crate\'s real build path (parser, static checker with Shape::narrow, translator, VM op_build/check_constraint, ConstraintVal::check) from MIR. '
+         'Range bounds, alternatives and the bound value are symbolic i64: z3 decides per path that the build succeeds iff the value conforms (inclusive bounds, half-open forms, alternations of exact values '
+         'and ranges, the same constraint behind a `constraint` name, a computed value) — it finds lo-1, lo, hi, hi+1 itself. Float bounds at concrete boundary values; ~340 exemplar/value shape pairs '
+         '(primitives, NULL, tuples, lists, nesting 2, inline and named) against the three documented compatibility rules.',
+    design_ref='DESIGN.md 4/C06',
+    note='Trusted: MIR = code; io stubs; std builtins; oracle predicates. Outside: recursive constraints, func/module shapes as exemplars, symbolic float bounds; constraints on tuple fields / function and module parameters (the property speaks of let bindings).',
+    technique='symbolic execution of the binary crate\'s MIR with symbolic bounds/values; z3 validity of build-succeeds <=> conforms per path; replay with the real binary (bounded: forms, shape grammar)')
 NOT_APPLICABLE = {
 }
 ALL = ['C%02d' % i for i in range(1, 21)]
